@@ -169,8 +169,10 @@ func registerStubs(e *Engine) {
 		id := e.strID(sv)
 		ok := e.uf("PD_ok", []*Term{id}, BoolSort)
 		val := e.uf("PD_val", []*Term{id}, BV(64))
-		// the real parser reads unsigned digits: a parsed duration is never negative
-		e.axiom("PDnonneg|"+val.String(), Implies(ok, BVCmp("bvsge", val, ConstBV(0, 64))))
+		// the real parser reads unsigned digits and its finest unit is the millisecond: a parsed duration is a
+		// non-negative multiple of 1ms (bounded so that the product below cannot overflow)
+		ms := e.uf("PD_ms", []*Term{id}, BV(64))
+		e.axiom("PDms|"+val.String(), Implies(ok, And(BVCmp("bvsge", ms, ConstBV(0, 64)), BVCmp("bvsle", ms, ConstBV(9000000000000, 64)), Eq(val, BVBin("bvmul", ms, ConstBV(1000000, 64))))))
 		// the uninterpreted parser agrees with the real one on every concrete member of the atom's domain
 		for _, c := range sv.Cands {
 			cid := ConstInt(int64(e.intern(c)))
